@@ -186,6 +186,9 @@ def check_push(repo, rep):
                 d += 1 if o == 'ins' else -1
             elif ln is not None and ln.startswith('heapq.'):
               unknown = 'unmodelled heap operation %s' % ln
+            elif any(queue_of(n, a_) == qcanon for a_ in call.args if not isinstance(a_, ast.Starred)) \
+                and not (isinstance(call.func, ast.Name) and call.func.id in ('len', 'bool', 'list', 'sorted', 'tuple', 'iter', 'min', 'max', 'print', 'isinstance', 'id', 'repr', 'str')):
+              unknown = 'the queue is handed to `%s`, whose effect on the heap is not modelled' % norm(call.func)[:50]
             elif isinstance(call.func, ast.Attribute) and call.func.attr in (
                 'append', 'pop', 'insert', 'remove', 'sort', 'clear', 'extend', 'reverse'):
               tq = queue_of(n, call.func.value)
